@@ -6,12 +6,16 @@ package lib
 
 //@ import anypb "google.golang.org/protobuf/types/known/anypb"
 //@ import net "net"
+//@ import sync "sync"
+//@ import log "github.com/refraction-networking/conjure/pkg/station/log"
 
 // Interface contracts of lib.Transport as its callers use them (frames only).
 //@ func (t Transport) ParseParams(libVersion uint, data *anypb.Any) (any, error)
 //@   assigns nothing
 
 //@ func (t Transport) GetDstPort(libVersion uint, seed []byte, parameters any) (uint16, error)
+//@   assigns nothing
+//@ func (t Transport) ParamStrings(p any) []string
 //@   assigns nothing
 
 // ---------------- C06: covert address policy ----------------
@@ -108,3 +112,58 @@ package lib
 //@   ensures @C19: regManager.RegConfig.enableCovertAllowlist == old(conf.enableCovertAllowlist)
 //@   ensures @C19: regManager.RegConfig.covertBlocklistDomains == old(conf.covertBlocklistDomains)
 //@   ensures @C19: regManager.RegConfig.phantomBlocklist == old(conf.phantomBlocklist)
+
+// ---------------- C05: the proxy relays byte streams faithfully and tears both sides down ----------------
+
+//@ ghost state spawned_halfPipe_2(c net.Conn) bool
+
+// the process-wide statistics singletons (sync.Once initialisation is not modelled)
+//@ func Stat() *Stats
+//@   ensures result == &statInstance
+//@   assigns nothing
+//@   trusted
+//@ func getProxyStats() *ProxyStats
+//@   ensures result == &proxyStatsInstance
+//@   assigns nothing
+//@   trusted
+
+//@ func generalizeErr(err error) error
+//@   ensures err == nil ==> result == nil
+//@   assigns nothing
+
+// One direction of the relay. The digests are relative to the start of the call (requires txh(dst) == rxh(src)):
+// "exactly the bytes it read, in order, without loss, duplication or reordering up to the point where one side fails,
+// including bytes that were returned together with an end-of-stream or error indication".
+//@ func halfPipe(src net.Conn, dst net.Conn, wg *sync.WaitGroup, logger *log.Logger, tag string, stats *tunnelStats)
+//@   requires src != nil && dst != nil && wg != nil && logger != nil && stats != nil && stats.proxyStats != nil
+// ghost normalisation (digests and flags are relative to the start of the call; not an obligation of callers)
+//@   requires @SAFETY: txh(dst) == rxh(src) && !wfail(dst) && !closed(dst) && !spawned_halfPipe_2(src)
+//@   let counted := ite(isUpload, stats.BytesUp, stats.BytesDown)
+//@   ensures @C05: !wfail(dst) ==> txh(dst) == rxh(src)
+//@   ensures @C05: closed(dst) && spawned_halfPipe_2(src)
+//@   ensures @C05: wgdone(wg) == old(wgdone(wg)) + 1
+//@   ensures @C05: stats.BytesUp + stats.BytesDown == old(stats.BytesUp + stats.BytesDown) + nwritten(dst) - old(nwritten(dst))
+//@ loop 1:
+//@   invariant @C05: txh(dst) == rxh(src) && !wfail(dst)
+//@   invariant !closed(dst) && !spawned_halfPipe_2(src) && wgdone(wg) == old(wgdone(wg)) && stats.proxyStats != nil && len(buf) == 32768 && fresh(buf)
+//@   invariant @C05: stats.BytesUp + stats.BytesDown == old(stats.BytesUp + stats.BytesDown) + nwritten(dst) - old(nwritten(dst))
+//@   modifies elems(buf), stats.BytesUp, stats.BytesDown, stats.ClientConnErr, stats.CovertConnErr, obj(stats.proxyStats), obj(&statInstance), rxh(src), txh(dst), nread(src), nwritten(dst), nwrites(dst), wfail(dst), now()
+
+//@ ghost state spawned_halfPipe(c net.Conn) bool
+
+// Proxy: both directions are started with swapped ends, and the covert connection is
+// closed on every return after the relay was set up.
+//@ func Proxy(reg *DecoyRegistration, clientConn net.Conn, logger *log.Logger)
+//@   requires reg != nil && clientConn != nil && logger != nil && reg.TransportPtr != nil
+//@   atcall WaitGroup).Add#1 before: snap cc := covertConn
+//@   ensures @C05: defined(cc) ==> closed(cc) && spawned_halfPipe(clientConn) && spawned_halfPipe(cc)
+
+//@ func (reg *DecoyRegistration) IDString() string
+//@   assigns nothing
+//@   trusted
+//@ func writePROXYHeader(conn net.Conn, address string) error
+//@   assigns txh(conn), nwritten(conn), nwrites(conn), wfail(conn)
+//@   trusted
+//@ func (ts *tunnelStats) Print(logger *log.Logger)
+//@   assigns nothing
+//@   trusted
